@@ -8,6 +8,7 @@ pub mod c02_sched;
 pub mod c03;
 pub mod c04;
 pub mod c05;
+pub mod c05_sched2;
 pub mod c06;
 pub mod c06_stage;
 pub mod c07;
